@@ -10,8 +10,10 @@ package main
 // Exec puts the two vectors into mresults.MetricsResult{MetricName, Results} and calls the REAL helper.  Model:
 // lean/SigModel/Model/PromqlBin.lean (theorems Props.C09 §6).  Property checked on the real code, independent of the
 // model, when every id starts with the metric name of its vector (label part = the rest of the id): the ids of the
-// answer are exactly the left ids whose label part occurs on the right (arithmetic, comparison, and), those whose
-// label part does not (unless), resp. all left ids plus the right ids whose label part no left id has (or).
+// answer are exactly the left ids whose LABEL SET occurs on the right (arithmetic, comparison, and), those whose
+// label set does not (unless), resp. all left ids plus the right ids whose label set no left id has (or).  The label
+// set of a label part is the multiset of its comma-separated items (binopLabelSet): the order of the labels and a
+// comma behind the last one do not matter (repair c09-15; before it the id strings were compared).
 
 import (
 	"fmt"
@@ -67,6 +69,18 @@ func binopPart(r *rand.Rand) string {
 		sb.WriteString(k + ":" + binopValAtoms[r.Intn(len(binopValAtoms))] + ",")
 	}
 	return sb.String()
+}
+
+// the label set of a label part: leading "{" dropped, comma-separated items, sorted, empty items dropped
+func binopLabelSet(part string) string {
+	var items []string
+	for _, it := range strings.Split(strings.TrimPrefix(part, "{"), ",") {
+		if it != "" {
+			items = append(items, it)
+		}
+	}
+	sort.Strings(items)
+	return strings.Join(items, ",")
 }
 
 func binopVec(r *rand.Rand, name string, parts []string, op string, side int, grid []int64) []binSeries {
@@ -150,11 +164,20 @@ func genBinop(r *rand.Rand, n int, tier string) []string {
 		}
 		var lp, rp []string
 		for _, p := range pool {
-			switch r.Intn(6) {
+			switch r.Intn(7) {
 			case 0:
 				lp = append(lp, p)
 			case 1:
 				rp = append(rp, p)
+			case 3: // the same label set written differently: labels in another order, no comma behind the last one
+				lp = append(lp, p)
+				items := strings.Split(strings.TrimSuffix(strings.TrimPrefix(p, "{"), ","), ",")
+				r.Shuffle(len(items), func(i, j int) { items[i], items[j] = items[j], items[i] })
+				q := "{" + strings.Join(items, ",")
+				if r.Intn(2) == 0 {
+					q += ","
+				}
+				rp = append(rp, q)
 			case 2: // near miss: one byte differs / the other metric name inside the part
 				lp = append(lp, p)
 				q := p + "x"
@@ -318,42 +341,46 @@ func execBinop(line string) Result {
 	var fails []PropFail
 	wf := true
 	lparts, rparts := map[string]bool{}, map[string]bool{}
+	lsets, rsets := map[string]bool{}, map[string]bool{}
 	for _, s := range lv {
 		if !strings.HasPrefix(s.id, ln) {
 			wf = false
 		}
 		lparts[strings.TrimPrefix(s.id, ln)] = true
+		lsets[binopLabelSet(strings.TrimPrefix(s.id, ln))] = true
 	}
 	for _, s := range rv {
-		if !strings.HasPrefix(s.id, rn) {
+		if !strings.HasPrefix(s.id, rn) || s.id == "" {
 			wf = false
 		}
 		rparts[strings.TrimPrefix(s.id, rn)] = true
+		rsets[binopLabelSet(strings.TrimPrefix(s.id, rn))] = true
 	}
 	shared := 0
 	if wf {
 		want := map[string]bool{}
 		for p := range lparts {
-			if rparts[p] {
+			has := rsets[binopLabelSet(p)]
+			if has {
 				shared++
 			}
 			switch f[1] {
 			case "or":
 				want[ln+p] = true
 			case "unless":
-				if !rparts[p] {
+				if !has {
 					want[ln+p] = true
 				}
 			default:
-				if rparts[p] {
+				if has {
 					want[ln+p] = true
 				}
 			}
 		}
-		clash := false // `or` writes a right series under its own id: an id that both sides use for different label parts
+		clash := false // `or` writes a right series under its own id: an id that both sides use for different label sets
 		if f[1] == "or" {
 			for p := range rparts {
-				if !lparts[p] {
+				if !lsets[binopLabelSet(p)] {
 					if want[rn+p] {
 						clash = true
 					}
@@ -379,7 +406,7 @@ func execBinop(line string) Result {
 			if f[1] == "and" || f[1] == "or" || f[1] == "unless" {
 				cls = f[1]
 			}
-			fails = append(fails, PropFail{Sig: "promql-binop/label-set-matching/" + cls, Msg: fmt.Sprintf("%q %s %q: series with label parts %q missing from the answer, %q not expected (a series must find the series of the other vector that has the same label part)", ln, f[1], rn, trunc(strings.Join(missing, " ; "), 300), trunc(strings.Join(extra, " ; "), 300))})
+			fails = append(fails, PropFail{Sig: "promql-binop/label-set-matching/" + cls, Msg: fmt.Sprintf("%q %s %q: series %q missing from the answer, %q not expected (a series must find the series of the other vector that has the same label set)", ln, f[1], rn, trunc(strings.Join(missing, " ; "), 300), trunc(strings.Join(extra, " ; "), 300))})
 		}
 	}
 	tg := []string{"op=" + f[1], fmt.Sprintf("wellformed=%v", wf)}
